@@ -2343,6 +2343,92 @@ def rule8(ctx, rep):
             r.ok('dawgie.pl.dag:no-held-one-shot-iterators', 'no local of the graph builder holds a generator across a loop')
 
 
+def rule9(ctx, rep):
+    """added after seeded change C09-10: a guard-clause tidy-up of scan.advanced_factories ended the "user defined factory,
+    not overriding it" arm in `continue`, which also skipped the collection of that factory: the package's algorithms
+    had no nodes, and everything depending on them vanished from the graph"""
+    prog = ctx.prog
+    f = prog.nfunc('dawgie.pl.scan.advanced_factories')
+    rep.analysed(f)
+    with rep.rule(
+        'R-C09-9',
+        'scan.advanced_factories collects every factory a task package ends up with: on every path of the per-factory iteration that leaves the attribute on the module (found there and kept, or installed), it is appended to the factory list',
+        floor=1,
+        breaks='a package that brings its own task / analysis / regress function is silently dropped: its algorithms and everything downstream of them are missing from the task graph',
+    ) as r:
+        # by role: the innermost loop whose body appends getattr(<module>, <name>) to a collection
+        loops = []
+        for lp in [n for n in f.own_nodes() if isinstance(n, ast.For)]:
+            apps = [c for b in lp.body for c in ast.walk(b) if isinstance(c, ast.Call) and isinstance(c.func, ast.Attribute) and c.func.attr == 'append' and c.args
+                    and isinstance(c.args[0], ast.Call) and isinstance(c.args[0].func, ast.Name) and c.args[0].func.id == 'getattr' and len(c.args[0].args) >= 2]
+            if apps and not any(isinstance(x, ast.For) and any(a in list(ast.walk(x)) for a in apps) for b in lp.body for x in ast.walk(b)):
+                loops.append((lp, apps))
+        key = f'{f.qname}:kept-factory-collected'
+        r.instance()
+        if not loops:
+            r.fail(key, where(f), 'advanced_factories no longer appends getattr(<module>, <factory name>) to the factory lists')
+            return
+        lp, apps = loops[0]
+        mod_e, name_e = norm(apps[0].args[0].args[0]), norm(apps[0].args[0].args[1])
+
+        def is_attr_call(c, fn_name):
+            return isinstance(c, ast.Call) and isinstance(c.func, ast.Name) and c.func.id == fn_name and len(c.args) >= 2 and norm(c.args[0]) == mod_e and norm(c.args[1]) == name_e
+
+        class Has(Flow):
+            # state: (has 'T'/'F'/'?', appended, aliases = names bound to getattr(m, fn, None) while has was unchanged)
+            def on_stmt(s, st_, state):
+                has, app, al = state
+                if isinstance(st_, ast.Assign) and len(st_.targets) == 1 and isinstance(st_.targets[0], ast.Name):
+                    v = st_.value
+                    if is_attr_call(v, 'getattr') and len(v.args) == 3 and isinstance(v.args[2], ast.Constant) and v.args[2].value is None:
+                        return ((has, app, al | {st_.targets[0].id}),)
+                    return ((has, app, al - {st_.targets[0].id}),)
+                return (state,)
+
+            def on_call(s, c, state):
+                has, app, al = state
+                if is_attr_call(c, 'setattr'):
+                    return (('T', app, frozenset()),)
+                if is_attr_call(c, 'delattr'):
+                    return (('F', app, frozenset()),)
+                if any(c is a for a in apps):
+                    return ((has, True, al),)
+                return (state,)
+
+            def on_test(s, e, state):
+                has, app, al = state
+                pos = None
+                if is_attr_call(e, 'hasattr'):
+                    pos = True
+                elif isinstance(e, ast.Name) and e.id in al:
+                    pos = True
+                elif isinstance(e, ast.Compare) and len(e.ops) == 1 and isinstance(e.left, ast.Name) and e.left.id in al and isinstance(e.comparators[0], ast.Constant) and e.comparators[0].value is None:
+                    pos = isinstance(e.ops[0], (ast.IsNot, ast.NotEq))
+                    if not isinstance(e.ops[0], (ast.Is, ast.IsNot, ast.Eq, ast.NotEq)):
+                        pos = None
+                if pos is None:
+                    return (state,), (state,)
+                if has == '?':
+                    yes, no = (('T', app, al),), (('F', app, al),)
+                elif has == 'T':
+                    yes, no = (state,), ()
+                else:
+                    yes, no = (), (state,)
+                return (yes, no) if pos else (no, yes)
+
+        out = Has().block(lp.body, {('?', False, frozenset())})
+        ends = out.normal | out.cont
+        lost = sorted({st for st in ends if st[0] == 'T' and not st[1]}, key=str)
+        r.check(
+            bool(ends) and not lost,
+            key,
+            where(f, lp),
+            f'{len(ends)} abstract end states of one (package, factory) iteration: attribute present implies collected',
+            f'an iteration of the (package, factory) loop can end with {name_e} still on the module but not appended to the factory list '
+            f'({len(lost)} of {len(ends)} end states): that factory never reaches the graph construction',
+        )
+
+
 def check(ctx):
     rep = Report(
         PID,
@@ -2383,6 +2469,7 @@ def check(ctx):
     rule6(ctx, rep, fx)
     rule7(ctx, rep)
     rule8(ctx, rep)
+    rule9(ctx, rep)
     return rep
 
 
@@ -2451,6 +2538,10 @@ _THREE_NEW = """def _sub(self, a, fn, dep):
         self._sub(a, fn, 'previous')"""
 
 VARIANTS = [
+    V('scanner skips the collection of a user defined factory', 'B', 'pl/scan.py', 'advanced_factories', "m.__name__, fn, )", "m.__name__, fn, )\n                continue", 'R-C09-9'),
+    V('scanner collects the installed factory in its own arm', 'N', 'pl/scan.py', 'advanced_factories', "setattr(m, fn, getattr(fs, fn))", "setattr(m, fn, getattr(fs, fn))\n                factories[f].append(getattr(m, fn))\n                continue", None),
+    V('scanner collects in each arm', 'N', 'pl/scan.py', 'advanced_factories', "m.__name__, fn, )", "m.__name__, fn, )\n                factories[f].append(getattr(m, fn))\n                continue", None),
+
     V('declared inputs expanded once, consumed twice', 'B', 'pl/dag.py', 'Construct._sub_task', 'for ref in dawgie.util.as_vref(a.previous()):', 'refs = dawgie.util.as_vref(a.previous())\n        for ref in [x for _k in (1, 2) for x in refs]:', 'R-C09-8'),
     V('declared inputs expanded into a list first', 'N', 'pl/dag.py', 'Construct._sub_task', 'for ref in dawgie.util.as_vref(a.previous()):', 'refs = list(dawgie.util.as_vref(a.previous()))\n        for ref in [x for _k in (1,) for x in refs]:', None),
     V('base package depth captured at import', 'B', 'util/names.py', None, 'import logging', "import logging\n\n_AE_DEPTH = len(dawgie.context.ae_base_package.split('.'))", 'R-C09-7'),
